@@ -63,8 +63,8 @@ TRUSTED = [
     "encoder state (levels) as a function of (factor, data, kept rows)",
     "the data frames and formula objects are immutable in the model; that the real ones are not mutated is observed by "
     "hashing them around every operation (oracle), not proved",
-    "a persistent FormulaMaterializer instance reused by hand for several get_model_matrix calls (its factor/encoded "
-    "caches survive) is outside the property's quantifier and not modelled; every modelled entry point creates its own",
+    "the materializer's factor_cache / encoded_cache / encoder_state_cache are per call in the model (the code resets them at "
+    "the start of every get_model_matrix, and every modelled entry point creates its own materializer anyway)",
 ]
 ASSUMPTIONS = [
     "inner state dictionaries (state[name], encoder_state[expr][1]) are written only while a key is absent "
